@@ -255,6 +255,15 @@ class Axioms:
                 nolemma[g.get_id()] = g
                 add(g == t)
                 self.table()
+        elif d.kind() == z3.Z3_OP_SEQ_CONTAINS:
+            # the raw text of a line file contains  <line> + "\n"  for each of its lines
+            hay, needle = t.arg(0), t.arg(1)
+            if z3.is_app(hay) and hay.decl().name() == "rawOf" and z3.is_app(needle) and \
+                    needle.decl().kind() == z3.Z3_OP_SEQ_CONCAT:
+                ch = needle.children()
+                if z3.is_string_value(ch[-1]) and ch[-1].as_string() == "\n":
+                    y = ch[0] if len(ch) == 2 else z3.Concat(*ch[:-1])
+                    add(z3.Implies(z3.Select(hay.arg(0), y) > 0, t))
         elif d.kind() == z3.Z3_OP_SEQ_CONCAT and YAML_HOOK:
             YAML_HOOK[0](self, t)
         elif d.kind() == z3.Z3_OP_SELECT and t.arg(0).sort() == Lines:
